@@ -20,6 +20,15 @@ def blen(s):
     return sum(clen(c) for c in s)
 
 
+TTY_ASSUMPTIONS = [
+    "the terminal is a Linux pty (line discipline: OPOST|ONLCR on output); TERM=xterm; window 80x24 unless the case sets a width",
+    "delivery schedule is part of the input: bytes arrive in chunks, the next chunk is sent only once the child has read every byte sent and waits on the terminal with no timeout; a timed wait (key-sequence timeout 0, the 100 ms ESC ESC wait) therefore always expires",
+    "observation uses public API only: a ConditionalEventHandler bound to Event::Any returning None logs line/cursor/mode/argument each time a key reaches the keymap",
+    "grapheme segmentation and Unicode tables are the dependencies' own (dumped from the built crate at setup); theorems quantify over all Unicode data",
+    "rows/columns below 65536, line below the u16 limits of the layout",
+]
+
+
 class Cmd:
     def __init__(self, keys, tag, **arg):
         self.keys, self.tag, self.arg = list(keys), tag, arg
@@ -372,7 +381,14 @@ def alignment(traces):
     return {"aligned": ok, "not_aligned": len(traces) - ok}
 
 
+def check_cc():
+    """Props/C01 states the decoder theorem for Unicode data whose control class is Cc = C0/C1 controls"""
+    if ud_tables().get("control") != [(0, 0x1f), (0x7f, 0x9f)]:
+        raise BuildBroken("char::is_control of the implementation is not the C0/C1 range the decoder theorem assumes")
+
+
 def c01_corr(res, exe, driver, tier, seed, tmp):
+    check_cc()
     cases = p_tty.c01_cases(tier, seed)
     run_tty_cases(res, exe, driver, cases, tmp, "keys", rng=random.Random(seed), typeahead=0.3)
     ocases = c01_oracle_cases(tier, seed)
